@@ -84,8 +84,9 @@ type entry struct {
 }
 
 type selRec struct {
-	By string `json:"by"`
-	V  string `json:"v"`
+	By  string `json:"by"`
+	V   string `json:"v"`
+	Pre string `json:"pre"` // none | blobs | all: what the target holds before the import
 }
 
 type catRec struct {
@@ -694,6 +695,30 @@ func (d *driver) importOCI(e *env, g *graph, c *catRec, s *scenario, exports []*
 	if err != nil {
 		fail(err)
 	}
+	// a target that is not empty: the blobs (and manifests) of the image are placed there directly
+	if c.Sel.Pre == "blobs" || c.Sel.Pre == "all" {
+		sub := &graph{name: g.name, objs: map[string]*object{}, byDig: g.byDig}
+		for _, n := range closureOf(c.Nodes, c.Want) {
+			o := g.objs[n]
+			if o.isMan && c.Sel.Pre != "all" {
+				continue
+			}
+			sub.objs[n] = o
+			sub.order = append(sub.order, n)
+			if s.Tgt == "reg" {
+				if o.isMan {
+					e.tgt.PutManifest(repo, "", o.mt, o.raw)
+				} else {
+					e.tgt.PutBlob(repo, o.raw)
+				}
+			}
+		}
+		if s.Tgt == "dir" {
+			if err := writeLayout(dir, sub, nil); err != nil {
+				fail(err)
+			}
+		}
+	}
 	e.net.ResetLog()
 	sk := &seekCounter{Reader: bytes.NewReader(archive)}
 	ierr := e.rc.ImageImport(context.Background(), rt, sk, opts...)
@@ -749,6 +774,25 @@ func (d *driver) importOCI(e *env, g *graph, c *catRec, s *scenario, exports []*
 		e.tgt.Unlock()
 	}
 	return t
+}
+
+// closureOf lists the nodes reachable from n (n included), in a fixed order.
+func closureOf(nodes map[string]nodeRec, n string) []string {
+	seen := map[string]bool{}
+	var out []string
+	var walk func(x string)
+	walk = func(x string) {
+		if seen[x] {
+			return
+		}
+		seen[x] = true
+		for _, k := range nodes[x].Kids {
+			walk(k.N)
+		}
+		out = append(out, x)
+	}
+	walk(n)
+	return out
 }
 
 // pushesOf lists the accepted writes of one repository in serving order.
